@@ -16,7 +16,7 @@ LEVEL = "fault_enumeration"
 TAIL = 64
 RULE = (
     "case = backend in {sqlite (lazy commit), peewee} x history of 5..60 generated operations (expanded: runs of up to 90 deletes, bulk inserts of 0..130 events "
-    "crossing the 50-statement threshold and peewee's 100-row chunk, upserts, replace, replace_last, bucket create/update/delete, interspersed reads, and operations that are rejected with an exception: deleting a non-existent bucket, bulk insert through the stale handle of a deleted bucket). The crash point "
+    "crossing the 50-statement threshold and peewee's 100-row chunk, upserts, replace, replace_last, bucket create/update/delete (also placed right after exactly 48..51 buffered single writes, i.e. at the count threshold), interspersed reads, and operations that are rejected with an exception: deleting a non-existent bucket, bulk insert through the stale handle of a deleted bucket). The crash point "
     "is not sampled: a trace callback on the writer connection observes EVERY SQL statement boundary and every operation return through a second connection (what a "
     "process death would leave). Oracle, purely observational (L_i = writer's view after operation i, D = second connection's view): (1) every D equals some L_j or is "
     "row-wise between L_{j-1} and L_j, with j non-decreasing; (2) sqlite: for single-event and bucket-level operations D is never in between; (3) after a bucket "
